@@ -80,3 +80,76 @@ package commands
 //@   assumed
 //@   props C01 C08
 //@   modifies ghost fexists[a.Filename]
+
+// C16: pushes and locks.  Every pointer handed over by the scanner has its
+// path checked against the locks of other users, whatever happens to its
+// object afterwards (duplicate content, already uploaded, empty).
+//@ func (*uploadContext).prepareUpload
+//@   props C16
+//@   requires @inv c.lockVerifier != nil && c.meter != nil
+//@   loop 1 iter has(c.lockVerifier.theirLocks, p.Name) ==> len(c.lockVerifier.unownedLocks) > iter(len(c.lockVerifier.unownedLocks))
+//@   loop 1 iter has(c.lockVerifier.theirLocks, p.Name) && c.lockVerifier.verifyState == 1 ==> len(uploadables) == iter(len(uploadables))
+
+//@ func (*lockVerifier).LockedByThem
+//@   props C16
+//@   modifies field lv.unownedLocks
+//@   ensures result == has(lv.theirLocks, name)
+//@   ensures result ==> len(lv.unownedLocks) == old(len(lv.unownedLocks)) + 1
+//@   ensures !result ==> lv.unownedLocks == old(lv.unownedLocks)
+//@ func (*lockVerifier).LockedByUs
+//@   props C16
+//@   modifies field lv.ownedLocks
+//@ func (*lockVerifier).Enabled
+//@   props C16
+//@   pure
+//@   ensures result == (lv.verifyState == 1)
+//@ func (*lockVerifier).HasUnownedLocks
+//@   props C16
+//@   pure
+//@   ensures result == (len(lv.unownedLocks) > 0)
+
+// A push with foreign locks recorded is refused when verification is enabled.
+//@ func (*uploadContext).ReportErrors
+//@   props C16
+//@   requires @inv c.lockVerifier != nil
+//@   ensures !(len(c.lockVerifier.unownedLocks) > 0 && c.lockVerifier.verifyState == 1)
+
+// Without --force a lock is only released after the modified-file guard for
+// that path / id returned nil.
+//@ func unlockAbortIfFileModified
+//@   props C16
+//@   modifies fresh
+//@   monitor guard_path[path] := result == nil
+//@   ensures result == nil ==> unlockCmdFlags.Force || !gitmodified(path)
+//@ func unlockAbortIfFileModifiedById
+//@   props C16
+//@   modifies fresh
+//@   monitor guard_id[id] := result == nil
+//@ func unlockCommand
+//@   props C16
+//@   at call (*locking.Client).UnlockFile:1 assert guard_path(arg1__)
+//@   at call (*locking.Client).UnlockFileById:1 assert guard_id(arg1__)
+
+//@ func github.com/git-lfs/git-lfs/v3/git.IsFileModified
+//@   assumed
+//@   props C16
+//@   modifies fresh
+//@   ensures result1 == nil ==> result0 == gitmodified(a0)
+//@ func (*github.com/git-lfs/git-lfs/v3/locking.Client).SearchLocks
+//@   assumed
+//@   props C16
+//@   modifies fresh
+//@ func (*github.com/git-lfs/git-lfs/v3/locking.Client).UnlockFile
+//@   assumed
+//@   props C16
+//@   modifies fresh
+//@ func (*github.com/git-lfs/git-lfs/v3/locking.Client).UnlockFileById
+//@   assumed
+//@   props C16
+//@   modifies fresh
+//@ func (*github.com/git-lfs/git-lfs/v3/tq.Meter).Finish
+//@   assumed
+//@   noeffect
+//@ func FullError
+//@   assumed
+//@   noeffect
